@@ -31,7 +31,7 @@ ASSUMPTIONS = [
     'Gaussian priors are kept within +/-10 % of physical nominal values (negative temperatures etc. are not among the invalid-atmosphere classes of the statement)',
     'chi^2 == 0 (model equal to data) is outside the domain (the code maps it to NaN on purpose)',
 ]
-REQUIRED = {'extreme-error-bars': 0.1, 'retargeted:after-use': 0.1, 'retargeted:before-use': 0.1, 'observation-parameter-fitted': 0.15, 'sampler:nestle': 0.1, 'sampler:multinest': 0.1, 'sampler:polychord': 0.1, 'has-invalid-point': 0.1}
+REQUIRED = {'extreme-error-bars': 0.1, 'retargeted:after-use': 0.1, 'retargeted:before-use': 0.1, 'observation-parameter-fitted': 0.15, 'sampler:nestle': 0.1, 'sampler:multinest': 0.1, 'sampler:polychord': 0.06, 'has-invalid-point': 0.1}
 
 POOL = ['planet_radius', 'T', 'mol0', 'mol1', 'fill', 'clouds_pressure']
 
